@@ -150,7 +150,7 @@ def run_one(check, case):
 def _known_match(findings, pid, check_name, res):
     for f in findings:
         if f.get("property") == pid and f.get("status") == "open" and f.get("sig") == res.sig:
-            if f.get("check") in (None, check_name):
+            if f.get("check") in (None, check_name) or f.get("any_check"):
                 return f
     return None
 
